@@ -52,6 +52,8 @@ UNITS = {
 
 # functions of the package by name (filled per repository): used to learn how many values a call returns
 ARITY_HELPERS: Dict[str, ast.FunctionDef] = {}
+# bare function name -> parameters that only switch diagnostics on (see _diagnostic_flags)
+FLAG_PARAMS: Dict[str, Set[str]] = {}
 # bare name -> the positional parameter lists of every definition of that name in the package (functions at any depth,
 # methods without their receiver, classes through __init__): used to spell keyword arguments positionally
 SIGNATURES: Dict[str, List[List[str]]] = {}
@@ -154,6 +156,161 @@ def _call_kills(c: ast.Call, out: Set[str]):
 IMPORT_ALIASES: Dict[str, Set[str]] = {}     # alias -> the function names it is bound to somewhere in the package
 
 
+def _print_only(stmts: List[ast.stmt]) -> bool:
+    """statements that only report: print(...), logging / logger calls, with side-effect free arguments"""
+    if not stmts:
+        return False
+    for st in stmts:
+        if isinstance(st, ast.Pass):
+            continue
+        if not (isinstance(st, ast.Expr) and isinstance(st.value, ast.Call)):
+            return False
+        c = st.value
+        d = ast.unparse(c.func)
+        okf = d == 'print' or d.split('.')[0] in ('logging', 'logger', 'log', '_logger', '_log', 'LOGGER', 'LOG') \
+            or d.split('.')[-1] in ('debug', 'info') and '.' in d
+        if not okf:
+            return False
+        for a in list(c.args) + [k.value for k in c.keywords]:
+            for n in ast.walk(a):
+                if isinstance(n, ast.Call):
+                    fn_ = ast.unparse(n.func)
+                    if fn_ not in ('len', 'str', 'repr', 'float', 'int', 'list', 'tuple', 'format') and not fn_.endswith('.format') \
+                            and not fn_.endswith('.tolist') and not fn_.endswith('.join'):
+                        return False
+                if isinstance(n, (ast.NamedExpr, ast.Yield, ast.Await)):
+                    return False
+    return True
+
+
+def _diagnostic_flags(trees: List[ast.Module]):
+    """A parameter with a false default (False / None / 0) whose only uses in its function are `if p:` in front of
+    statements that only print / log, and being handed on to a parameter of the same kind, switches diagnostics on and
+    nothing else: results do not depend on it.  Computed for the whole package by bare function name (all definitions of
+    a name must agree), optimistically, removing candidates until nothing changes."""
+    FLAG_PARAMS.clear()
+    defs: Dict[str, List[ast.FunctionDef]] = {}
+    for t in trees:
+        for n in ast.walk(t):
+            if isinstance(n, ast.FunctionDef):
+                defs.setdefault(n.name, []).append(n)
+    cand: Dict[str, Set[str]] = {}
+    for name, fds in defs.items():
+        per = []
+        for fd in fds:
+            a = fd.args
+            ps = a.args + a.kwonlyargs
+            dflt = dict(zip([x.arg for x in a.args][len(a.args) - len(a.defaults):], a.defaults))
+            dflt.update({x.arg: d for x, d in zip(a.kwonlyargs, a.kw_defaults) if d is not None})
+            per.append({p_ for p_, d in dflt.items() if isinstance(d, ast.Constant) and d.value in (False, None, 0) and
+                        p_ in ('verbose', 'debug', 'verbosity', 'trace', 'log', 'quiet') or
+                        (isinstance(d, ast.Constant) and d.value is False and p_.startswith(('verbose', 'debug', 'print_', 'show_', 'log_')))})
+        common = set.intersection(*per) if per else set()
+        if common:
+            cand[name] = common
+
+    def uses_ok(fd: ast.FunctionDef, p_: str) -> bool:
+        par = {}
+        for n in ast.walk(fd):
+            for c in ast.iter_child_nodes(n):
+                par[id(c)] = n
+        for n in ast.walk(fd):
+            if isinstance(n, ast.Name) and n.id == p_:
+                if not isinstance(n.ctx, ast.Load):
+                    return False
+                q = par.get(id(n))
+                if isinstance(q, ast.If) and q.test is n and not q.orelse and _print_only(q.body):
+                    continue
+                if isinstance(q, ast.keyword) and q.arg is not None:
+                    call = par.get(id(q))
+                    cn = call.func.id if isinstance(call.func, ast.Name) else (call.func.attr if isinstance(call.func, ast.Attribute) else None)
+                    if cn in cand and q.arg in cand[cn]:
+                        continue
+                    return False
+                if isinstance(q, ast.Call) and n in q.args:
+                    cn = q.func.id if isinstance(q.func, ast.Name) else (q.func.attr if isinstance(q.func, ast.Attribute) else None)
+                    if cn in cand:
+                        idx = q.args.index(n)
+                        oks = []
+                        for fd2 in defs.get(cn, []):
+                            ps2 = [x.arg for x in fd2.args.args]
+                            if ps2 and ps2[0] in ('self', 'cls') and isinstance(q.func, ast.Attribute):
+                                ps2 = ps2[1:]
+                            oks.append(idx < len(ps2) and ps2[idx] in cand[cn])
+                        if oks and all(oks):
+                            continue
+                    return False
+                return False
+        return True
+    changed = True
+    while changed:
+        changed = False
+        for name in list(cand):
+            for p_ in list(cand[name]):
+                if not all(uses_ok(fd, p_) for fd in defs[name]):
+                    cand[name].discard(p_)
+                    changed = True
+            if not cand[name]:
+                del cand[name]
+    FLAG_PARAMS.update(cand)
+
+
+def _specialise_flags(tree: ast.Module):
+    """N46: diagnostic flags (FLAG_PARAMS) are read as their default: the guarded reports disappear, the flag is no longer
+    handed on, the parameter leaves the signature."""
+    if not FLAG_PARAMS:
+        return
+
+    class T(ast.NodeTransformer):
+        def __init__(self):
+            self.cur: List[Set[str]] = []
+
+        def visit_FunctionDef(self, node):
+            flags = FLAG_PARAMS.get(node.name, set())
+            # a nested function sees the flags of the functions around it (closure), unless it binds the name itself
+            own = _fn_params(node)
+            inherited = {f_ for f_ in (self.cur[-1] if self.cur else set()) if f_ not in own}
+            self.cur.append(set(flags) | inherited)
+            self.generic_visit(node)
+            self.cur.pop()
+            if flags:
+                a = node.args
+                n_pos = len(a.args)
+                keep_args, keep_defaults = [], []
+                first_default = n_pos - len(a.defaults)
+                for i, x in enumerate(a.args):
+                    if x.arg in flags:
+                        continue
+                    keep_args.append(x)
+                    if i >= first_default:
+                        keep_defaults.append(a.defaults[i - first_default])
+                a.args, a.defaults = keep_args, keep_defaults
+                kk = [(x, d) for x, d in zip(a.kwonlyargs, a.kw_defaults) if x.arg not in flags]
+                a.kwonlyargs, a.kw_defaults = [x for x, _ in kk], [d for _, d in kk]
+            if not node.body:
+                node.body = [ast.Pass()]
+            return node
+
+        def visit_If(self, node):
+            self.generic_visit(node)
+            flags = self.cur[-1] if self.cur else set()
+            if isinstance(node.test, ast.Name) and node.test.id in flags and not node.orelse:
+                return ast.copy_location(ast.Pass(), node)
+            return node
+
+        def visit_Call(self, node):
+            self.generic_visit(node)
+            flags = self.cur[-1] if self.cur else set()
+            cn = node.func.id if isinstance(node.func, ast.Name) else (node.func.attr if isinstance(node.func, ast.Attribute) else None)
+            if cn in FLAG_PARAMS:
+                node.keywords = [k for k in node.keywords if not (k.arg in FLAG_PARAMS[cn])]
+                while node.args and isinstance(node.args[-1], ast.Name) and node.args[-1].id in flags:
+                    node.args = node.args[:-1]
+            return node
+    T().visit(tree)
+    ast.fix_missing_locations(tree)
+
+
 def compute_mutators(trees: List[ast.Module]):
     """Repository-wide summary (by bare name, merged over same-named functions): which parameters a function may
     modify in place - a store through the parameter or through a local alias of it, or passing it on to a
@@ -177,6 +334,7 @@ def compute_mutators(trees: List[ast.Module]):
     KNOWN_FUNCS.clear()
     MUTATORS.clear()
     KNOWN_FUNCS.update(n for n, _, _ in funcs)
+    _diagnostic_flags(trees)
     SIGNATURES.clear()
 
     def sig_of(fd: ast.FunctionDef, drop_first: bool):
@@ -467,6 +625,14 @@ def _expand_ifexp(block: List[ast.stmt]) -> List[ast.stmt]:
     for st in block:
         for b in _blocks_of(st):
             b[:] = _expand_ifexp(b)
+        # `x = np.float64(A if c else B)`: the conversion applies to whichever value is selected
+        if isinstance(st, ast.Assign) and len(st.targets) == 1 and isinstance(st.value, ast.Call) and len(st.value.args) == 1 \
+                and not st.value.keywords and isinstance(st.value.args[0], ast.IfExp) \
+                and ast.unparse(st.value.func) in ('np.float64', 'np.double', 'float', 'numpy.float64'):
+            ie = st.value.args[0]
+            mk = lambda v: ast.Call(func=copy.deepcopy(st.value.func), args=[v], keywords=[])
+            st.value = ast.copy_location(ast.IfExp(test=ie.test, body=mk(ie.body), orelse=mk(ie.orelse)), st.value)
+            ast.fix_missing_locations(st)
         if isinstance(st, ast.Assign) and isinstance(st.value, ast.IfExp) and len(st.targets) == 1 \
                 and (isinstance(st.targets[0], ast.Name) or
                      (isinstance(st.targets[0], (ast.Subscript, ast.Attribute)) and _base_name(st.targets[0])
@@ -573,6 +739,28 @@ def _scalarize_small_arrays(fn: ast.FunctionDef) -> bool:
     for n in ast.walk(fn):
         if isinstance(n, ast.Name) and isinstance(n.ctx, ast.Store):
             stores[n.id] = stores.get(n.id, 0) + 1
+    # `a = np.array([e0, e1][, dtype=float])` is `a = np.empty(2); a[0] = e0; a[1] = e1` (the elements are evaluated in order, each
+    # is converted to float64 when it is stored)
+    for k_, st in enumerate(list(fn.body)):
+        if isinstance(st, ast.Assign) and len(st.targets) == 1 and isinstance(st.targets[0], ast.Name) \
+                and isinstance(st.value, ast.Call) and ast.unparse(st.value.func) in ('np.array', 'numpy.array') \
+                and len(st.value.args) == 1 and isinstance(st.value.args[0], (ast.List, ast.Tuple)) \
+                and 1 <= len(st.value.args[0].elts) <= 4 and all(_is_pure_expr(e) for e in st.value.args[0].elts) \
+                and all(k.arg == 'dtype' and ast.unparse(k.value) in ('float', 'np.float64', 'np.double') for k in st.value.keywords) \
+                and stores.get(st.targets[0].id) == 1 and st.targets[0].id not in _fn_params(fn) \
+                and not any(isinstance(e, (ast.List, ast.Tuple, ast.Starred)) for e in st.value.args[0].elts):
+            a_ = st.targets[0].id
+            npn = st.value.func.value.id if isinstance(st.value.func, ast.Attribute) and isinstance(st.value.func.value, ast.Name) else 'np'
+            elts = st.value.args[0].elts
+            new_stmts = [_fix(ast.Assign(targets=[ast.Name(id=a_, ctx=ast.Store())],
+                                         value=ast.Call(func=ast.Attribute(value=ast.Name(id=npn, ctx=ast.Load()), attr='empty', ctx=ast.Load()),
+                                                        args=[ast.Constant(value=len(elts))], keywords=[])), st)]
+            for i_, e_ in enumerate(elts):
+                new_stmts.append(_fix(ast.Assign(targets=[ast.Subscript(value=ast.Name(id=a_, ctx=ast.Load()), slice=ast.Constant(value=i_),
+                                                                        ctx=ast.Store())], value=e_), st))
+            idx = fn.body.index(st)
+            fn.body[idx:idx + 1] = new_stmts
+            changed = True
     for st in fn.body:
         if isinstance(st, ast.Assign) and len(st.targets) == 1 and isinstance(st.targets[0], ast.Name) \
                 and isinstance(st.value, ast.Call) and isinstance(st.value.func, ast.Attribute) \
@@ -2407,8 +2595,16 @@ def _hoist_common_return(fn: ast.FunctionDef) -> bool:
 
 
 def _drop_self_assign(fn: ast.FunctionDef) -> bool:
-    """`x = x` (left behind where an inlined helper returned a parameter it was given) does nothing."""
+    """`x = x` (left behind where an inlined helper returned a parameter it was given) does nothing; neither does an
+    expression statement that only names values (`(a, b)` left where the result of an inlined helper was not used)."""
     changed = False
+
+    def only_names(e) -> bool:
+        if isinstance(e, (ast.Name, ast.Constant)):
+            return not (isinstance(e, ast.Constant) and isinstance(e.value, str))      # (docstrings stay)
+        if isinstance(e, (ast.Tuple, ast.List)):
+            return all(only_names(x) for x in e.elts)
+        return False
 
     def visit(block):
         nonlocal changed
@@ -2418,7 +2614,8 @@ def _drop_self_assign(fn: ast.FunctionDef) -> bool:
             for b in _blocks_of(st):
                 visit(b)
         keep = [st for st in block if not (isinstance(st, ast.Assign) and len(st.targets) == 1 and isinstance(st.targets[0], ast.Name)
-                                           and isinstance(st.value, ast.Name) and st.value.id == st.targets[0].id)]
+                                           and isinstance(st.value, ast.Name) and st.value.id == st.targets[0].id)
+                and not (isinstance(st, ast.Expr) and only_names(st.value))]
         if len(keep) != len(block) and keep:
             block[:] = keep
             changed = True
@@ -3092,6 +3289,43 @@ def _unroll_loop_over_names(fn: ast.FunctionDef) -> bool:
                     block[k:k + 1] = out
                     changed = True
                     k += len(out)
+                    continue
+            k += 1
+    visit(fn.body)
+    if changed:
+        ast.fix_missing_locations(fn)
+        _invalidate()
+    return changed
+
+
+def _expand_small_slice_store(fn: ast.FunctionDef) -> bool:
+    """N47: `A[a:b] = c` with literal bounds 0 <= a < b <= a + 4 and a numeric literal c is the element stores `A[a] = c` ...
+    `A[b-1] = c` (assumption: the array has at least b elements, as the element stores it replaces require)."""
+    changed = False
+
+    def visit(block):
+        nonlocal changed
+        for st in block:
+            if isinstance(st, (ast.FunctionDef, ast.ClassDef)):
+                continue
+            for b in _blocks_of(st):
+                visit(b)
+        k = 0
+        while k < len(block):
+            st = block[k]
+            if isinstance(st, ast.Assign) and len(st.targets) == 1 and isinstance(st.targets[0], ast.Subscript) \
+                    and isinstance(st.targets[0].value, ast.Name) and isinstance(st.targets[0].slice, ast.Slice) \
+                    and st.targets[0].slice.step is None and _is_num_literal(st.value):
+                sl = st.targets[0].slice
+                lo = 0 if sl.lower is None else (sl.lower.value if isinstance(sl.lower, ast.Constant) and isinstance(sl.lower.value, int) else None)
+                hi = sl.upper.value if isinstance(sl.upper, ast.Constant) and isinstance(sl.upper.value, int) else None
+                if lo is not None and hi is not None and 0 <= lo < hi <= lo + 4:
+                    new = [_fix(ast.Assign(targets=[ast.Subscript(value=ast.Name(id=st.targets[0].value.id, ctx=ast.Load()),
+                                                                  slice=ast.Constant(value=i_), ctx=ast.Store())],
+                                           value=copy.deepcopy(st.value)), st) for i_ in range(lo, hi)]
+                    block[k:k + 1] = new
+                    changed = True
+                    k += len(new)
                     continue
             k += 1
     visit(fn.body)
@@ -3811,6 +4045,46 @@ def _coalesce_default_select(fn: ast.FunctionDef) -> bool:
     return ch
 
 
+def _forward_adjacent_copy(fn: ast.FunctionDef) -> bool:
+    """`g = E` directly followed by `T = g` (the whole value; T a name, an attribute or an element), g a name introduced by
+    inlining that nothing reads afterwards: `T = E` - the right-hand side is evaluated before the target in either form."""
+    def gen(name: str) -> bool:
+        return '__inl' in name or name.startswith('__r')
+
+    def find(block, after_ids) -> bool:
+        for k in range(len(block) - 1):
+            a, b = block[k], block[k + 1]
+            if isinstance(a, ast.Assign) and len(a.targets) == 1 and isinstance(a.targets[0], ast.Name) and gen(a.targets[0].id) \
+                    and isinstance(b, ast.Assign) and len(b.targets) == 1 and isinstance(b.value, ast.Name) \
+                    and b.value.id == a.targets[0].id:
+                g = a.targets[0].id
+                tgt_reads = _names_loaded(b.targets[0])
+                later = after_ids | {id(n) for t in block[k + 2:] for n in ast.walk(t)}
+                read_later = any(isinstance(n, ast.Name) and n.id == g and isinstance(n.ctx, ast.Load) and id(n) in later
+                                 for n in ast.walk(fn))
+                if g not in tgt_reads and not read_later:
+                    b.value = a.value
+                    del block[k]
+                    return True
+        for k, s_ in enumerate(block):
+            if isinstance(s_, (ast.FunctionDef, ast.ClassDef)):
+                continue
+            later = after_ids | {id(n) for t in block[k + 1:] for n in ast.walk(t)}
+            if isinstance(s_, (ast.For, ast.While)):
+                later = later | {id(n) for n in ast.walk(s_)}          # a later iteration may read it
+            for b in _blocks_of(s_):
+                if find(b, later):
+                    return True
+        return False
+    ch = False
+    while find(fn.body, set()):
+        ch = True
+    if ch:
+        ast.fix_missing_locations(fn)
+        _invalidate()
+    return ch
+
+
 def _coalesce_select(fn: ast.FunctionDef) -> bool:
     """`if c: w = A else: w = B` directly followed by `v = w`, w a name introduced by inlining that occurs nowhere
     else: the branches define v themselves (`v = v` arms disappear, an `if` left with an empty else loses it)."""
@@ -4091,7 +4365,8 @@ def _pair_combinations(fn: ast.FunctionDef, combos: Set[str]) -> bool:
     """N19: `combinations(X, 2)` (itertools, bound to one of the names in `combos`) over a sequence is the pair
     comprehension that enumerates it: `[(X[a], b) for a in range(len(X)) for b in X[a + 1:]]`, and for X = range(E) the
     pairs of positions `[(a, b) for a in range(E) for b in range(a + 1, E)]`; `list(<that>)` is the list itself."""
-    if not combos:
+    has_triu = any(isinstance(n, ast.Attribute) and n.attr == 'triu_indices' for n in ast.walk(fn))
+    if not combos and not has_triu:
         return False
     changed = False
     counter = [0]
@@ -4115,6 +4390,18 @@ def _pair_combinations(fn: ast.FunctionDef, combos: Set[str]) -> bool:
             nonlocal changed
             self.generic_visit(node)
             f = node.func
+            # zip(*np.triu_indices(E, k=1)): the pairs of positions a < b < E in row-major order
+            if isinstance(f, ast.Name) and f.id == 'zip' and len(node.args) == 1 and isinstance(node.args[0], ast.Starred) \
+                    and not node.keywords and isinstance(node.args[0].value, ast.Call) \
+                    and ast.unparse(node.args[0].value.func) in ('np.triu_indices', 'numpy.triu_indices'):
+                tc = node.args[0].value
+                kk = tc.args[1] if len(tc.args) == 2 else next((k_.value for k_ in tc.keywords if k_.arg == 'k'), None)
+                if len(tc.args) in (1, 2) and all(k_.arg == 'k' for k_ in tc.keywords) and isinstance(kk, ast.Constant) and kk.value == 1 \
+                        and _is_pure_expr(tc.args[0]):
+                    a, b = fresh('a'), fresh('b')
+                    E = ast.unparse(tc.args[0])
+                    changed = True
+                    return ast.copy_location(ast.parse(f"[({a}, {b}) for {a} in range({E}) for {b} in range({a} + 1, {E})]", mode='eval').body, node)
             nm = f.id if isinstance(f, ast.Name) else (f.attr if isinstance(f, ast.Attribute) and isinstance(f.value, ast.Name)
                                                        and f.value.id == 'itertools' else None)
             if nm in combos or (isinstance(f, ast.Attribute) and nm == 'combinations'):
@@ -4938,6 +5225,7 @@ def normalize_function(fn: ast.FunctionDef, module_helpers: Dict[str, ast.Functi
         _invalidate()
         _dissolve_name_bundles(fn)
         _unroll_loop_over_names(fn)
+        _expand_small_slice_store(fn)
         _split_chained_assign(fn)
         _merge_nested_ifs(fn)
         _drop_self_assign(fn)
@@ -4971,7 +5259,7 @@ def normalize_function(fn: ast.FunctionDef, module_helpers: Dict[str, ast.Functi
                 ch = True
             ch = _inline_temps(fn, True) or ch
             ch = _forward_across_increments(fn) or ch
-            while _coalesce_copies(fn) or _coalesce_generated(fn) or _coalesce_select(fn) or _coalesce_bound_copy(fn) or _coalesce_else_copy(fn) or _coalesce_default_select(fn):
+            while _coalesce_copies(fn) or _coalesce_generated(fn) or _coalesce_select(fn) or _coalesce_bound_copy(fn) or _coalesce_else_copy(fn) or _coalesce_default_select(fn) or _forward_adjacent_copy(fn):
                 ch = True
             ch = _reuse_values(fn) or ch
             ch = _sink_defs_into_branches(fn) or ch
@@ -5158,6 +5446,7 @@ def _hoist_walrus(fn: ast.FunctionDef) -> bool:
 
 def normalize_module(tree: ast.Module, imported_helpers: Optional[Dict[str, ast.FunctionDef]] = None,
                      backend: bool = False) -> ast.Module:
+    _specialise_flags(tree)
     _modern_syntax(tree)
     helpers = dict(imported_helpers or {})
     helpers.update(_module_helpers(tree, backend))
